@@ -33,7 +33,8 @@ type Report struct {
 	keys       map[string]int
 	Funcs      map[string]bool // functions analysed
 	Sites      int             // call sites inspected
-	Supporting []string        // supporting rules run (support.go)
+	finalized  bool
+	Supporting []string // supporting rules run (support.go)
 }
 
 func newReport(e *Engine, prop string) *Report {
@@ -103,6 +104,10 @@ func (r *Report) need(rule, alias, name string) *ssa.Function {
 }
 
 func (r *Report) finalizeCounts() {
+	if r.finalized {
+		return
+	}
+	r.finalized = true
 	counts := map[string]int{}
 	for _, o := range r.Obls {
 		counts[o.Rule]++
